@@ -197,3 +197,80 @@ package common
 //@   ensures root_next: pc.parent == nil && pc.trustedParentCount == 0 && !old(has(pc.pub2idx, pub)) && index == old(len(pc.idx2pub)) ==> err == nil && out == pc && len(pc.idx2pub) == index + 1 && pc.idx2pub[index].Compressed == pub && has(pc.pub2idx, pub) && pc.pub2idx[pub] == index
 //@   ensures root_beyond: pc.parent == nil && pc.trustedParentCount == 0 && !old(has(pc.pub2idx, pub)) && index > old(len(pc.idx2pub)) ==> err != nil
 //@   ensures root_conflict: pc.parent == nil && pc.trustedParentCount == 0 && old(has(pc.pub2idx, pub)) && old(pc.pub2idx[pub]) != index ==> (err == nil ==> out != pc) && unchanged(pc.idx2pub) && unchanged(pc.pub2idx)
+
+// ---------------------------------------------------------------- bls.go / block.go: signing domains and the proposer signature (C03, C12, C14)
+
+//@ sort DomT = BLSDomain
+//@ sort DomTypeT = BLSDomainType
+//@ sort Pub48T = BLSPubkey
+//@ sort Sig96T = BLSSignature
+//@ sort FDigestT = ForkDigest
+// hash-tree-root of SigningData(object_root, domain): computed by ztyp, uninterpreted
+//@ ufun signing_root(RootT, DomT) RootT
+
+// compute_domain: domain_type ++ fork_data_root[:28]
+//@ define compute_domain(dt DomTypeT, v VersionT, g RootT) DomT = BLSDomain(dt[0], dt[1], dt[2], dt[3], fork_data_root(v, g)[0], fork_data_root(v, g)[1], fork_data_root(v, g)[2], fork_data_root(v, g)[3], fork_data_root(v, g)[4], fork_data_root(v, g)[5], fork_data_root(v, g)[6], fork_data_root(v, g)[7], fork_data_root(v, g)[8], fork_data_root(v, g)[9], fork_data_root(v, g)[10], fork_data_root(v, g)[11], fork_data_root(v, g)[12], fork_data_root(v, g)[13], fork_data_root(v, g)[14], fork_data_root(v, g)[15], fork_data_root(v, g)[16], fork_data_root(v, g)[17], fork_data_root(v, g)[18], fork_data_root(v, g)[19], fork_data_root(v, g)[20], fork_data_root(v, g)[21], fork_data_root(v, g)[22], fork_data_root(v, g)[23], fork_data_root(v, g)[24], fork_data_root(v, g)[25], fork_data_root(v, g)[26], fork_data_root(v, g)[27])
+
+//@ func ComputeDomain(domainType, forkVersion, genesisValidatorsRoot) out
+//@   property C03 C14
+//@   ensures out == compute_domain(domainType, forkVersion, genesisValidatorsRoot)
+
+//@ func ComputeSigningRoot(msgRoot, dom) r
+//@   trusted
+//@   opt noalloc
+//@   ensures r == signing_root(msgRoot, dom)
+
+// Deserialization of cached keys and signatures: assumed (calls into the BLS library).
+// CachedPubkey.Pubkey writes its lazy cache field; see DESIGN.md (C17) about that write.
+//@ func (c *CachedPubkey) Pubkey() (pub, err)
+//@   trusted
+//@   requires c != nil
+//@   assigns c.decompressed
+//@   ensures (err == nil) == pub_valid(c.Compressed)
+//@   ensures err == nil ==> pub != nil && pt_bytes(pub) == c.Compressed
+
+//@ func (p *BLSSignature) Signature() (sig, err)
+//@   trusted
+//@   requires p != nil
+//@   ensures (err == nil) == sig_valid(*p)
+//@   ensures err == nil ==> sig != nil && sg_bytes(sig) == *p
+
+// The proposer signature check of an envelope under a given fork version:
+// proposer matches, the envelope's fork digest is that of the version, key and
+// signature deserialize, and the signature is over the whole 32-byte signing
+// root of (block_root, compute_domain(DOMAIN_BEACON_PROPOSER, version, genesis_validators_root)).
+//@ define block_sig_ok(envProposer int, proposer int, digest FDigestT, blockRoot RootT, sig Sig96T, pub Pub48T, dt DomTypeT, v VersionT, g RootT) bool = envProposer == proposer && fork_data_root(v, g)[0] == digest[0] && fork_data_root(v, g)[1] == digest[1] && fork_data_root(v, g)[2] == digest[2] && fork_data_root(v, g)[3] == digest[3] && pub_valid(pub) && sig_valid(sig) && bls_ok(pub, seq(signing_root(blockRoot, compute_domain(dt, v, g))), sig)
+
+//@ func (b *BeaconBlockEnvelope) VerifySignatureVersioned(spec, version, genesisValidatorsRoot, proposer, cachedPub) r
+//@   property C03 C12 C14
+//@   requires b != nil && cachedPub != nil
+//@   assigns cachedPub.decompressed
+//@   ensures r <==> block_sig_ok(b.ProposerIndex, proposer, b.ForkDigest, b.BlockRoot, b.Signature, cachedPub.Compressed, DOMAIN_BEACON_PROPOSER, version, genesisValidatorsRoot)
+
+// env_sig_ok: the proposer signature check under the fork version the specification assigns to the slot
+//@ define env_sig_ok(slot int, spe int, e1 int, e2 int, e3 int, e4 int, e5 int, e6 int, v0 VersionT, v1 VersionT, v2 VersionT, v3 VersionT, v4 VersionT, v5 VersionT, v6 VersionT, envProposer int, proposer int, digest FDigestT, blockRoot RootT, sig Sig96T, pub Pub48T, dt DomTypeT, g RootT) bool = (fork_idx(slot / spe, e1, e2, e3, e4, e5, e6) == 0 && block_sig_ok(envProposer, proposer, digest, blockRoot, sig, pub, dt, v0, g)) || (fork_idx(slot / spe, e1, e2, e3, e4, e5, e6) == 1 && block_sig_ok(envProposer, proposer, digest, blockRoot, sig, pub, dt, v1, g)) || (fork_idx(slot / spe, e1, e2, e3, e4, e5, e6) == 2 && block_sig_ok(envProposer, proposer, digest, blockRoot, sig, pub, dt, v2, g)) || (fork_idx(slot / spe, e1, e2, e3, e4, e5, e6) == 3 && block_sig_ok(envProposer, proposer, digest, blockRoot, sig, pub, dt, v3, g)) || (fork_idx(slot / spe, e1, e2, e3, e4, e5, e6) == 4 && block_sig_ok(envProposer, proposer, digest, blockRoot, sig, pub, dt, v4, g)) || (fork_idx(slot / spe, e1, e2, e3, e4, e5, e6) == 5 && block_sig_ok(envProposer, proposer, digest, blockRoot, sig, pub, dt, v5, g)) || (fork_idx(slot / spe, e1, e2, e3, e4, e5, e6) == 6 && block_sig_ok(envProposer, proposer, digest, blockRoot, sig, pub, dt, v6, g))
+
+// Through VerifySignature the version is the one the specification assigns to the block's slot.
+//@ func (b *BeaconBlockEnvelope) VerifySignature(spec, genesisValidatorsRoot, proposer, pub) r
+//@   property C03 C12 C14
+//@   requires b != nil && pub != nil && spec != nil && spec.SLOTS_PER_EPOCH != 0
+//@   requires ordered: spec.ALTAIR_FORK_EPOCH <= spec.BELLATRIX_FORK_EPOCH && spec.BELLATRIX_FORK_EPOCH <= spec.CAPELLA_FORK_EPOCH && spec.CAPELLA_FORK_EPOCH <= spec.DENEB_FORK_EPOCH && spec.DENEB_FORK_EPOCH <= spec.ELECTRA_FORK_EPOCH && spec.ELECTRA_FORK_EPOCH <= spec.FULU_FORK_EPOCH
+//@   assigns pub.decompressed
+//@   ensures summary: r <==> env_sig_ok(b.Slot, spec.SLOTS_PER_EPOCH, spec.ALTAIR_FORK_EPOCH, spec.BELLATRIX_FORK_EPOCH, spec.CAPELLA_FORK_EPOCH, spec.DENEB_FORK_EPOCH, spec.ELECTRA_FORK_EPOCH, spec.FULU_FORK_EPOCH, spec.GENESIS_FORK_VERSION, spec.ALTAIR_FORK_VERSION, spec.BELLATRIX_FORK_VERSION, spec.CAPELLA_FORK_VERSION, spec.DENEB_FORK_VERSION, spec.ELECTRA_FORK_VERSION, spec.FULU_FORK_VERSION, b.ProposerIndex, proposer, b.ForkDigest, b.BlockRoot, b.Signature, pub.Compressed, DOMAIN_BEACON_PROPOSER, genesisValidatorsRoot)
+//@   ensures phase0: fork_idx(b.Slot / spec.SLOTS_PER_EPOCH, spec.ALTAIR_FORK_EPOCH, spec.BELLATRIX_FORK_EPOCH, spec.CAPELLA_FORK_EPOCH, spec.DENEB_FORK_EPOCH, spec.ELECTRA_FORK_EPOCH, spec.FULU_FORK_EPOCH) == 0 ==> (r <==> block_sig_ok(b.ProposerIndex, proposer, b.ForkDigest, b.BlockRoot, b.Signature, pub.Compressed, DOMAIN_BEACON_PROPOSER, spec.GENESIS_FORK_VERSION, genesisValidatorsRoot))
+//@   ensures altair: fork_idx(b.Slot / spec.SLOTS_PER_EPOCH, spec.ALTAIR_FORK_EPOCH, spec.BELLATRIX_FORK_EPOCH, spec.CAPELLA_FORK_EPOCH, spec.DENEB_FORK_EPOCH, spec.ELECTRA_FORK_EPOCH, spec.FULU_FORK_EPOCH) == 1 ==> (r <==> block_sig_ok(b.ProposerIndex, proposer, b.ForkDigest, b.BlockRoot, b.Signature, pub.Compressed, DOMAIN_BEACON_PROPOSER, spec.ALTAIR_FORK_VERSION, genesisValidatorsRoot))
+//@   ensures bellatrix: fork_idx(b.Slot / spec.SLOTS_PER_EPOCH, spec.ALTAIR_FORK_EPOCH, spec.BELLATRIX_FORK_EPOCH, spec.CAPELLA_FORK_EPOCH, spec.DENEB_FORK_EPOCH, spec.ELECTRA_FORK_EPOCH, spec.FULU_FORK_EPOCH) == 2 ==> (r <==> block_sig_ok(b.ProposerIndex, proposer, b.ForkDigest, b.BlockRoot, b.Signature, pub.Compressed, DOMAIN_BEACON_PROPOSER, spec.BELLATRIX_FORK_VERSION, genesisValidatorsRoot))
+//@   ensures capella: fork_idx(b.Slot / spec.SLOTS_PER_EPOCH, spec.ALTAIR_FORK_EPOCH, spec.BELLATRIX_FORK_EPOCH, spec.CAPELLA_FORK_EPOCH, spec.DENEB_FORK_EPOCH, spec.ELECTRA_FORK_EPOCH, spec.FULU_FORK_EPOCH) == 3 ==> (r <==> block_sig_ok(b.ProposerIndex, proposer, b.ForkDigest, b.BlockRoot, b.Signature, pub.Compressed, DOMAIN_BEACON_PROPOSER, spec.CAPELLA_FORK_VERSION, genesisValidatorsRoot))
+//@   ensures deneb: fork_idx(b.Slot / spec.SLOTS_PER_EPOCH, spec.ALTAIR_FORK_EPOCH, spec.BELLATRIX_FORK_EPOCH, spec.CAPELLA_FORK_EPOCH, spec.DENEB_FORK_EPOCH, spec.ELECTRA_FORK_EPOCH, spec.FULU_FORK_EPOCH) == 4 ==> (r <==> block_sig_ok(b.ProposerIndex, proposer, b.ForkDigest, b.BlockRoot, b.Signature, pub.Compressed, DOMAIN_BEACON_PROPOSER, spec.DENEB_FORK_VERSION, genesisValidatorsRoot))
+//@   ensures electra: fork_idx(b.Slot / spec.SLOTS_PER_EPOCH, spec.ALTAIR_FORK_EPOCH, spec.BELLATRIX_FORK_EPOCH, spec.CAPELLA_FORK_EPOCH, spec.DENEB_FORK_EPOCH, spec.ELECTRA_FORK_EPOCH, spec.FULU_FORK_EPOCH) == 5 ==> (r <==> block_sig_ok(b.ProposerIndex, proposer, b.ForkDigest, b.BlockRoot, b.Signature, pub.Compressed, DOMAIN_BEACON_PROPOSER, spec.ELECTRA_FORK_VERSION, genesisValidatorsRoot))
+//@   ensures fulu: fork_idx(b.Slot / spec.SLOTS_PER_EPOCH, spec.ALTAIR_FORK_EPOCH, spec.BELLATRIX_FORK_EPOCH, spec.CAPELLA_FORK_EPOCH, spec.DENEB_FORK_EPOCH, spec.ELECTRA_FORK_EPOCH, spec.FULU_FORK_EPOCH) == 6 ==> (r <==> block_sig_ok(b.ProposerIndex, proposer, b.ForkDigest, b.BlockRoot, b.Signature, pub.Compressed, DOMAIN_BEACON_PROPOSER, spec.FULU_FORK_VERSION, genesisValidatorsRoot))
+
+// ---------------------------------------------------------------- epochs context lookups used by gossip validation (assumed here; C07 is where they are verified)
+//@ sort EpcP = *EpochsContext
+//@ ufun epc_proposer_err(EpcP, int) bool
+//@ ufun epc_proposer(EpcP, int) int
+//@ func (epc *EpochsContext) GetBeaconProposer(slot) (idx, err)
+//@   trusted
+//@   opt noalloc
+//@   ensures (err != nil) == epc_proposer_err(epc, slot)
+//@   ensures err == nil ==> idx == epc_proposer(epc, slot)
